@@ -43,6 +43,11 @@ def to_act(label):
         return [name[1:], x[0], x[1], y[0], y[1], r, p]
     if name == 'VDelete':
         return ['Delete', args[0][0], args[0][1]]
+    if name == 'VLoad':
+        rows = args[0] if isinstance(args[0], list) else []
+        return ['LoadBuild', [dict(r) for r in rows], {}]
+    if name == 'VSaveLoad':
+        return ['SaveLoad', {}]
     out = [name[1:] if name.startswith('H') else name]
     for a in args:
         if isinstance(a, frozenset):
@@ -99,6 +104,11 @@ def max_ordinal(runs):
         for a in r['acts']:
             if a[0] in ('New', 'NewRef', 'Clone'):
                 cnt[a[1]] = cnt.get(a[1], 0) + 1
+            elif a[0] == 'NewRow':
+                cnt[a[1]['c']] = cnt.get(a[1]['c'], 0) + 1
+            elif a[0] == 'LoadBuild':
+                for row in a[1]:
+                    cnt[row['c']] = cnt.get(row['c'], 0) + 1
         if cnt:
             m = max(m, max(cnt.values()))
     return m
@@ -136,6 +146,9 @@ def _plan_job(args):
         extra['Alpha'] = set(plan['alpha'])
     if 'vals' in plan:
         extra['Vals'] = plan['vals']
+    if 'rowchoices' in plan:
+        extra['RowChoices'] = tlagen.SetOf(plan['rowchoices'])
+        extra['MaxRows'] = plan['maxrows'][tier] if isinstance(plan['maxrows'], dict) else plan['maxrows']
     genkind = plan.get('gen', 'int')
     userids = plan.get('userids', ())
     r = g = None
@@ -168,6 +181,9 @@ def _plan_job(args):
         for x in plan['random'](schema, rnd, tier):
             x.setdefault('src', 'random')
             runs.append(x)
+    if plan.get('decorate'):
+        for k, x in enumerate(runs):
+            plan['decorate'](x, k, rnd)
     if plan.get('obs'):
         for x in runs:
             if 'obs' not in x:
@@ -234,7 +250,7 @@ def run_plans(pid, tier, plans, replay_path, rule, model_text, assumptions, sig_
                     distinct.add((name, 'obs', json.dumps(q, sort_keys=True), json.dumps(qr, sort_keys=True)))
             if v.ok:
                 cov['traces_validated_against_impl'] += 1
-                if len(samples) < 3 and len(v.trace) > 6:
+                if len(samples) < 3 and (len(v.trace) > 6 or plan.get('maxlen', 40) < 6 or not r):
                     samples.append({'plan': name, 'source': run['src'],
                                     'calls': [[e['op'], e.get('x', e.get('c')), e.get('y', e.get('n')),
                                                e.get('rel', e.get('v')), e.get('ph'), e['res']] for e in v.trace[:10]],
